@@ -220,10 +220,20 @@ def OwnerSpec.Good (o : OwnerSpec) : Prop :=
   o.adminExempt = true ∧ o.projectMismatch = true ∧ o.onlyIfNotPublic = false
 
 theorem ownerGuard_foreign (o : OwnerSpec) (ho : o.Good) (a : Actor) (t : Resource)
-    (h : t.project ≠ a.project) (hna : a.isAdmin = false) : ownerGuard o a t = some .notAllowed := by
+    (h : t.project ≠ a.project) (hna : a.isAdmin = false) (sys : Bool) :
+    ownerGuard o sys a t = some .notAllowed := by
   obtain ⟨h1, h2, h3⟩ := ho
   unfold ownerGuard
   simp [h1, h2, h3, hna, h]
+
+theorem ownerGuard_outcomes (o : OwnerSpec) (sys : Bool) (a : Actor) (t : Resource) (e : Outcome)
+    (h : ownerGuard o sys a t = some e) : e = .notAllowed ∨ e = .systemProtected := by
+  unfold ownerGuard at h
+  split at h
+  · left; cases h; rfl
+  · split at h
+    · right; cases h; rfl
+    · cases h
 
 /-- rows of other projects survive an object-level update guarded by check_db_obj_access -/
 theorem doUpdate_guarded (s : SecureSpec) (o : OwnerSpec) (f : ForcingSpec) (ho : o.Good) (fn : FnInfo)
@@ -243,7 +253,7 @@ theorem doUpdate_guarded (s : SecureSpec) (o : OwnerSpec) (f : ForcingSpec) (ho 
           simp only [beq_eq_false_iff_ne, ne_eq]
           intro e2; subst e2; exact hp e
         simp [hne]
-    · simp [ownerGuard_foreign o ho a t e hna, hr]
+    · simp [ownerGuard_foreign o ho a t e hna fn.sysCheck, hr]
 
 theorem doDelete_guarded (s : SecureSpec) (o : OwnerSpec) (ho : o.Good) (fn : FnInfo)
     (db : Db) (a : Actor) (args : Args) (hoc : fn.ownerCheck = true) (hb : fn.bulk = false)
@@ -262,7 +272,7 @@ theorem doDelete_guarded (s : SecureSpec) (o : OwnerSpec) (ho : o.Good) (fn : Fn
           simp only [beq_eq_false_iff_ne, ne_eq]
           intro e2; subst e2; exact hp e
         simp [hne]
-    · simp [ownerGuard_foreign o ho a t e hna, hr]
+    · simp [ownerGuard_foreign o ho a t e hna fn.sysCheck, hr]
 
 /-- G3: with the owner check, only own rows change -/
 theorem mutation_guarded (s : SecureSpec) (o : OwnerSpec) (f : ForcingSpec) (ho : o.Good) (fn : FnInfo)
